@@ -7,16 +7,18 @@
      accepted by the final schema `config/3/config`  ->  documented shape (DocValid.config_doc)
 
    [config_doc false] / [ft_doc false] are the documented shapes MINUS the constraints listed at
-   the top of DocValid.v, which the current schemas still do not enforce (integral floats, null
-   enumeration mappings, names followed by a newline, total >= content size); each of those is a
+   the top of DocValid.v, which the current schemas still do not enforce (names followed by a newline); each of those is a
    `_refuted` theorem below (the documented shape is [.. true]).  The constraints that used to be
    refuted and were repaired in /repo (dynamic array shape, static array `length`, member names,
-   unknown trace properties) are now part of the proved shape, and their former witnesses are
+   unknown trace properties, integral floats, null enumeration mappings) are now part of the proved shape, and their former witnesses are
    kernel-evaluated to Invalid (Examples at the end).  The constraints that barectf
    checks in Python after schema validation (power-of-two alignment, duplicate/reserved member
    names, nested structure / dynamic array, ID field widths, default stream uniqueness, unknown
    aliases / clock types, cycles) are not modelled in Coq: they are validated on the real code by
-   harness/props/c09_oracle.py. *)
+   harness/props/c09_oracle.py.  Among them since /repo ef9d952: total size field type >= content
+   size field type (the schemas still accept the former witness JsonWitness.w_S3; `_create_dst`
+   refuses it, which the check replays as a regression input).  The reserved word list of
+   DocValid.ctf_keywords is the complete documented one (28 words) since /repo c9ab8b8. *)
 From Coq Require Import List String ZArith Bool.
 Import ListNotations.
 From BT.Front Require Import Json JsonSchema JsonSchemaLemmas DocValid JsonSchemaDoc JsonWitness.
@@ -102,25 +104,10 @@ Print Assumptions C09_trace_type.
 
 (* ---- the documentation is still NOT enforced by the schemas: accepted witnesses *)
 
-(* S19: a float with an integral value passes for an integer *)
-Theorem C09_integer_property_is_integer_refuted :
-  exists j, accepts3 "config/3/field-type#/definitions/ft" j /\ ~ ft_doc true j.
-Proof. exact (refuted_ft w_S18 w_S18_valid w_S18_not_doc). Qed.
-(* enumeration `mappings: null` *)
-Theorem C09_enum_mappings_required_refuted :
-  exists j, accepts3 "config/3/field-type#/definitions/ft" j /\ ~ ft_doc true j.
-Proof. exact (refuted_ft w_enum_null w_enum_null_valid w_enum_null_not_doc). Qed.
-(* S3: total size field type narrower than the content size field type *)
-Theorem C09_total_size_ge_content_size_refuted :
-  exists j, accepts3 "config/3/config#" j /\ ~ doc_total_ge_content j.
-Proof. exact (refuted_cfg doc_total_ge_content w_S3 w_S3_valid w_S3_not_doc). Qed.
 (* a name that is an identifier followed by a newline *)
 Theorem C09_name_identifier_refuted :
   exists j, accepts3 "config/3/config#" j /\ ~ config_doc true j.
 Proof. exact (refuted_cfg (config_doc true) w_name_nl w_name_nl_valid w_name_nl_not_doc). Qed.
-Print Assumptions C09_integer_property_is_integer_refuted.
-Print Assumptions C09_enum_mappings_required_refuted.
-Print Assumptions C09_total_size_ge_content_size_refuted.
 Print Assumptions C09_name_identifier_refuted.
 
 (* ---- non-vacuity: a complete configuration that is accepted, one (size 65) that is rejected *)
@@ -143,3 +130,9 @@ Proof. exact w_member_rejected. Qed.
 Example C09_trace_unknown_property_rejected :
   validate Schemas3.store 200 (SRef K_config) w_trace_prop = Invalid.
 Proof. exact w_trace_prop_rejected. Qed.
+Example C09_float_size_rejected :
+  validate Schemas3.store 200 (SRef K_ft) w_S18 = Invalid.
+Proof. exact w_S18_rejected. Qed.
+Example C09_enum_null_mappings_rejected :
+  validate Schemas3.store 200 (SRef K_ft) w_enum_null = Invalid.
+Proof. exact w_enum_null_rejected. Qed.
